@@ -3,8 +3,8 @@ Inductions over the recursion of `factorImpl`, all driven by the shape lemma:
 * `factorImpl_ext`   (ANY oracle): a successful run only appends; every appended element was
   accepted by `o.prime` (in some oracle state) or is logged as a give-up; 1 is never appended;
 * `factorImpl_mul` (under `OracleOK`): a block of product `n` is appended to the vector;
-* `factorImpl_total_aux` (under `OracleOK`, selector precondition, enough fuel, `rho` never
-  failing when the selector is Rho): the run ends with `.ok`.
+* `factorImpl_total_aux` (under `OracleOK`, selector precondition, enough fuel): the run ends
+  with `.ok`.
 -/
 import Ymq.Lemmas.FactorShape
 import Ymq.Lemmas.FactorCombine
@@ -179,7 +179,6 @@ theorem factorImpl_ext (o : Oracle σ) (alg : Algo) :
           injection hstep with hstep; subst hstep
           exact Ext.push ⟨rfl, rfl⟩ hf1 s2.os (by simpa using hp)
     | panicBits => exact absurd h (by simp)
-    | panicRho => exact absurd h (by simp)
     | panicUnexpected => exact absurd h (by simp)
     | panicCombine => exact absurd h (by simp)
     | fuelCombine => exact absurd h (by simp)
@@ -266,7 +265,6 @@ theorem factorImpl_mul {o : Oracle σ} (hok : OracleOK o) (alg : Algo) :
             (ih f _ s2' hf1 hstep)
         · injection hstep with hstep; subst hstep; exact Mul.push ⟨rfl, rfl⟩ f
     | panicBits => exact absurd h (by simp)
-    | panicRho => exact absurd h (by simp)
     | panicUnexpected => exact absurd h (by simp)
     | panicCombine => exact absurd h (by simp)
     | fuelCombine => exact absurd h (by simp)
@@ -286,19 +284,13 @@ theorem bindList_total {f : St σ → Nat → Res (St σ)} {L : List Nat}
 def SelectorPre (alg : Algo) (n : Nat) : Prop :=
   (alg = .qs64 ∨ alg = .rho ∨ alg = .squfof) → bits n ≤ 64
 
-/-- `pollard_rho::rho` never returns `None` on a number that `pseudoprime` has just rejected
-(stated with the exact oracle states of the call sequence `pseudoprime(n)`; `rho(n)`). -/
-def RhoNeverFails (o : Oracle σ) : Prop :=
-  ∀ (t : σ) (m : Nat), 2 ≤ m → (o.prime t m).1 = false → (o.rho (o.prime t m).2 m).1 ≠ none
-
 theorem SelectorPre.mono {alg : Algo} {m n : Nat} (h : SelectorPre alg n) (hmn : m ≤ n) :
     SelectorPre alg m := fun ha => Nat.le_trans (bits_le_of_le hmn) (h ha)
 
-/-- **C.** Under `OracleOK`: with the selector precondition, fuel at least `bits n`, and (only
-for selector Rho) `rho` never failing, the run ends with `.ok` — no panic site, no fuel
-exhaustion. Every recursive call is on a proper divisor, hence at least one bit shorter. -/
-theorem factorImpl_total_aux {o : Oracle σ} (hok : OracleOK o) (alg : Algo)
-    (hrho : alg = .rho → RhoNeverFails o) :
+/-- **C.** Under `OracleOK`: with the selector precondition and fuel at least `bits n`, the run
+ends with `.ok` — no panic site, no fuel exhaustion. Every recursive call is on a proper
+divisor, hence at least one bit shorter. -/
+theorem factorImpl_total_aux {o : Oracle σ} (hok : OracleOK o) (alg : Algo) :
     ∀ (fuel n : Nat) (s : St σ), 1 ≤ n → bits n ≤ fuel → SelectorPre alg n →
       ∃ s', factorImpl o fuel n alg s = .ok s' := by
   intro fuel
@@ -346,7 +338,6 @@ theorem factorImpl_total_aux {o : Oracle σ} (hok : OracleOK o) (alg : Algo)
           exact hrec f (Nat.pos_of_dvd_of_pos hd (by omega)) hd (by omega) _
         · exact ⟨_, rfl⟩
     | panicBits e ha hb64 => exact absurd (hsel ha) (by omega)
-    | panicRho t e ha hp hnone => exact absurd hnone (hrho ha t n hn2 hp)
     | panicUnexpected t a e hs =>
       have := (hok.sieveUnexpected t a n 0 hn2 hs).2.1
       omega
